@@ -408,9 +408,9 @@ func (ex *Exec) fltBinop(op token.Token, a, b Flt) Value {
 			return Flt{Bits: a.Bits, R: new(big.Rat).Mul(x, y)}
 		case token.QUO:
 			if y.Sign() == 0 {
-				// concrete division by zero: outside the real-mode claim
-				ex.divZero()
-				return Flt{Bits: a.Bits, R: new(big.Rat)}
+				// concrete division by zero (NaN/Inf natively): an unspecified but
+				// functional value, so that identical computations still agree
+				return ex.divZero(a)
 			}
 			return Flt{Bits: a.Bits, R: new(big.Rat).Quo(x, y)}
 		}
@@ -444,8 +444,7 @@ func (ex *Exec) fltBinop(op token.Token, a, b Flt) Value {
 			ex.sideConds++
 			ex.assume(ts.Not(ts.Eq(tb, ts.RealC(ratZero))))
 		} else if tb.rat.Sign() == 0 {
-			ex.divZero()
-			return Flt{Bits: a.Bits, R: new(big.Rat)}
+			return ex.divZero(a)
 		}
 		return ex.fltOf(ts.RDiv(ta, tb), bits)
 	case token.EQL:
@@ -465,11 +464,13 @@ func (ex *Exec) fltBinop(op token.Token, a, b Flt) Value {
 }
 
 // divZero: a float division whose denominator is the constant zero on this path.
-// In real mode such inputs are outside the claim: the path is cut (under the guard).
-func (ex *Exec) divZero() {
+// Natively the result is NaN or an infinity; in real mode it is the SMT term
+// (/ a 0.0): an unspecified value that is a function of the numerator only.
+func (ex *Exec) divZero(a Flt) Flt {
 	ex.sideConds++
 	ex.Info["div_by_constant_zero"] = ex.where()
-	ex.assume(ex.TS.BoolC(false))
+	ts := ex.TS
+	return Flt{Bits: a.Bits, T: ts.mk(SReal, "/", ex.fltTerm(a), ts.RealC(ratZero))}
 }
 
 func (ex *Exec) convert(v Value, from, to types.Type) Value {
@@ -661,6 +662,11 @@ func (ex *Exec) fsqrt(a Flt) Flt {
 		if new(big.Int).Mul(n, n).Cmp(a.R.Num()) == 0 && new(big.Int).Mul(d, d).Cmp(a.R.Denom()) == 0 {
 			return Flt{Bits: a.Bits, R: new(big.Rat).SetFrac(n, d)}
 		}
+		// concrete irrational root (period arithmetic such as round(sqrt(P))): the
+		// float64 value the real code computes
+		f, _ := a.R.Float64()
+		ex.Info["sqrt_of_constant"] = "float64 approximation"
+		return ex.fltC(math.Sqrt(f), int(a.Bits))
 	}
 	at := ex.fltTerm(a)
 	// one sqrt variable per argument term (function consistency)
